@@ -12,12 +12,18 @@
    -9998..9998 are accepted, everything out of range / non-finite / malformed is an error (never a
    panic, never another instant), round trips return the original instant.
 4. `strftime(F)|strptime(F)|mktime` on complete formats (real code only).
+5. strftime / strptime model (JaqVerif/C20/Strtime.lean) against the real code (pysupport/c20_strtime.py):
+   correspondence `c20 fmtcorr`, and the table of real single-directive renderings regenerated into
+   Gen/C20Strtime.lean and re-proved (Lemmas/C20Strtime.lean; general round-trip theorem there).
 """
 import datetime
 import struct
 from fractions import Fraction
 
 import verif
+import os, sys
+sys.path.insert(0, os.path.join(verif.VERIF, "pysupport"))
+import c20_strtime
 
 SEC_MIN = -377705023201          # -9999-01-02T01:59:59Z  (jiff Timestamp::MIN)
 SEC_MAX = 253402207200           #  9999-12-30T22:00:00Z  (jiff Timestamp::MAX, whole seconds)
@@ -390,7 +396,10 @@ COMPLETE_FORMATS = ["%Y-%m-%dT%H:%M:%SZ", "%F %T", "%s", "%d/%m/%Y %H.%M.%S", "%
 def run(ctx):
     ctx.build_harness()
     ctx.build_model()
-    proof = ctx.lean_check()
+    # strftime / strptime: correspondence with the model + regeneration of Gen/C20Strtime.lean
+    # (before the proof build, which re-proves the table lemma)
+    strtime_stats = c20_strtime.run_strtime(ctx, "c20f." if os.environ.get("C20_MODEL") == "fixed" else "c20.")
+    proof = ctx.lean_check(modules=["JaqVerif.Props.C20", "JaqVerif.Lemmas.C20Strtime"])
     ctx.log("lean:", "ok" if proof["ok"] else "BROKEN", len(proof["theorems"]), "theorems")
 
     out = ctx.harness(["c20", "gen"])
@@ -401,7 +410,6 @@ def run(ctx):
 
     # ---- correspondence (C20_MODEL=fixed compares with the model of the fully repaired code,
     #      `Fixes.all`, without editing `treeFixes`: a developer aid for trying the fix diffs)
-    import os
     prefix = "c20f." if os.environ.get("C20_MODEL") == "fixed" else "c20."
     ans = ctx.model([prefix + c[1][4:] for c in cases])
     bad = unmodelled = 0
@@ -489,6 +497,7 @@ def run(ctx):
         "disagreements": bad,
         "exhaustive": False,
     })
+    c20_strtime.merge_coverage(ctx, strtime_stats)
     ctx.assumptions += [
         "jiff 0.2 is a parameter: Timestamp range (-9999-01-02T01:59:59Z ..= 9999-12-30T22:00:00.999999999Z; from_microsecond/from_second "
         "limits), DateTime::new range checks, UTC civil conversion, RFC 3339 printer and parser are specified by the independent calendar "
